@@ -92,8 +92,10 @@ pub fn check_eia(c: &EC) -> CaseResult {
     let mut m2 = m.clone();
     let mut keep = m.clone();
     mask_beyond(&mut keep, c.length);
+    let mut inside = vec![!0u32; m.len()];
+    mask_beyond(&mut inside, c.length);
     for (i, w) in m2.iter_mut().enumerate() {
-        *w = keep[i] | (!*w & !{ let mut one = vec![!0u32; m.len()]; mask_beyond(&mut one, c.length); one[i] });
+        *w = keep[i] | (!*w & !inside[i]);
     }
     let got2 = mac(&m2).map_err(|p| Fail { key: "entry=EIA::gen_mac input=valid outcome=panic".into(), detail: p })?;
     ensure!(got2 == got, "entry=EIA::gen_mac outcome=depends-on-bits-beyond-length", "LENGTH={}: changing bits beyond LENGTH changed the MAC {:08x} -> {:08x}", c.length, got, got2);
